@@ -409,7 +409,7 @@ FrzParams(st, env, ps, i, b, acc) ==
          IN IF ~f.ok THEN [ok |-> FALSE, ps |-> acc] ELSE FrzParams(st, env, ps, i + 1, b, Append(acc, [ps[i] EXCEPT !.d = f.e]))
 
 Frz(st, env, e, b) ==
-    CASE e.n \in {"lit", "frozen", "cont", "none", "struct"} -> FzOk(e)
+    CASE e.n \in {"lit", "frozen", "cont", "none", "struct", "eval"} -> FzOk(e)      \* (the argument of eval is data)
       [] e.n = "id" -> IF InSeq(e.x, b) THEN FzOk(e)
                        ELSE LET r == ReadVar(st, env, e.x) IN IF r.ok THEN FzOk([n |-> "frozen", v |-> r.v]) ELSE FzFail
       [] e.n \in {"list", "vec"} -> LET f == FrzList(st, env, e.es, 1, b, <<>>, FALSE) IN IF f.ok THEN FzOk([e EXCEPT !.es = f.es]) ELSE FzFail
@@ -713,6 +713,7 @@ ModEach(c, path, i, op, w, j, hi) ==
 Ev(st, env, e) ==
     CASE e.n = "lit" -> RVal(st, e.v)
       [] e.n = "frozen" -> RVal(st, e.v)
+      [] e.n = "eval" -> Ev(st, env, e.e)      \* eval("<source of e.e>"): evaluated in the scope of the call
       [] e.n = "struct" ->
             \* declares the constructor and one accessor function per field in the current scope
             LET names == <<e.nm>> \o e.fs
